@@ -74,7 +74,7 @@ class Gen:
         return self.r.choice([("$", "$"), ("<", ">"), (">", "<")])
 
     def ident(self):
-        return self.r.choice(["", "", "", "", 1, 2, 7, 12, 23])
+        return self.r.choice(["", "", "", "", 1, 2, 7, 12, 23, 0])     # 0 is a written id like any other ([$0] is not [$])
 
     # ---- stochastic objects
     def linear_object(self, left_open, right_open, n_units=None, ends=True, ident=None, pair=None):
@@ -104,7 +104,8 @@ class Gen:
         # the prefix's open descriptor must *equal* the left terminal and is conjugate to what it bonds to;
         # a chain written a...b grows from a descriptor conj(a)
         left = self.bd(conj[a], ident) if left_open else "[]"
-        right = self.bd(conj[b], ident) if right_open else "[]"
+        # a weight on the right terminal has no effect on generation; it must survive printing and re-parsing next to a connector token
+        right = self.bd(conj[b], ident, r.choice([None, None, 3, 0.5])) if right_open else "[]"
         body = left + self.ws() + ("," + self.ws()).join(units)
         if egs:
             body += self.ws() + ";" + self.ws() + ("," + self.ws()).join(egs)
@@ -156,6 +157,17 @@ class Gen:
         t1 = u1.format(a=self.bd("<", "", lst=[0, p, 0, q]), b=self.bd(">", "", lst=[p, 0, q, 0]))
         t2 = u2.format(a=self.bd("<", "", lst=[0, p2, 0, q2]), b=self.bd(">", "", lst=[q2, 0, p2, 0]))
         return r.choice(PREFIX) + "{[>]" + t1 + ", " + t2 + " [<]}" + self.dist() + r.choice(SUFFIX)
+
+    def list_handover(self):
+        """an object whose growing descriptor carries a transition list, DIRECTLY followed (no connector token) by an object without lists:
+        the descriptor that stays open at the hand-over must take the second object's left terminal weight, not keep its list"""
+        r = self.r
+        u1, u2, u3 = r.sample(UNITS2, 3)
+        p, q = r.choice([1, 2, 0.5, 3]), r.choice([1, 2, 3])
+        tA = u1.format(a=self.bd("<", "", lst=[0, p]), b=self.bd(">", "", lst=[q, 0]))
+        tB1 = u2.format(a=self.bd("<", "", self.weight()), b=self.bd(">", "", self.weight()))
+        tB2 = u3.format(a=self.bd("<", "", r.choice([None, 0, 3])), b=self.bd(">", "", self.weight()))
+        return r.choice(PREFIX) + "{[>]" + tA + " [<]}" + self.dist() + "{[>]" + self.ws() + tB1 + ", " + tB2 + " [<]}" + self.dist() + r.choice(SUFFIX)
 
     def step_growth(self):
         r = self.r
@@ -218,7 +230,7 @@ class Gen:
         return self.r.choice(["CCO", "CCCCC", "c1ccccc1", "OCC(O)CO", "CC(=O)O", "[NH4+]", "C1CCCCC1"])
 
     ARCHETYPES = ["homopolymer", "random_copolymer", "block_copolymer", "alternating", "step_growth", "star", "graft",
-                  "end_initiated", "two_ids", "defective_list", "markov_copolymer"]
+                  "end_initiated", "two_ids", "defective_list", "markov_copolymer", "list_handover"]
 
     def molecule(self, archetype=None):
         a = archetype or self.r.choice(self.ARCHETYPES)
